@@ -12,6 +12,8 @@ open Gallia Gallia.Proto Gallia.Lifecycle
     start <world> <kind> <cfg:8 bits>                                              -> noLock | noArtDir | started
     dbrun  <kind> <call|-> <idx> <mode> <body event>                               -> exit=.. row=.. closed=.. finished=.. fired=..
     dbspec <kind> <call|-> <idx> <mode> <body event> | <the same fields, observed> -> ok | clause,clause
+    dbbusy <kind> <insert|complete|disconnect> <hold ms> <busy timeout ms> <body event>   -> the same fields (another writer holds the lock)
+    dbbusyspec <kind> <phase> <hold ms> <body event> | <the same fields, observed>      -> ok | clause,clause
            call : connect | insert | complete | disconnect ('-' = no fault)   mode : raise | cancel
   cfg bits : lock art db hooks power dumpcap tp props
   script   : pre dbopen power dumpcap connect ecuConnect tpStart propsPre setup main tdPre propsPost tpStop ecuClose close
@@ -232,6 +234,15 @@ def parseFault (c i m : String) : Option (Option Fault) :=
       | _ => none
     some (some ⟨call, ← i.toNat?, mode⟩)
 
+open DbFault in
+def parseContention (p h : String) : Option Contention := do
+  let phase ← match p with
+    | "insert" => some Phase.insert
+    | "complete" => some Phase.complete
+    | "disconnect" => some Phase.disconnect
+    | _ => none
+  some ⟨phase, ← h.toNat?⟩
+
 def showRow : DbFault.Row → String
   | none => "absent"
   | some none => "running"
@@ -267,6 +278,16 @@ def step (line : String) : String :=
     match parseKind k, parseFault c i m, parseEv b, parseOut obs with
     | some k, some f, some b, some o =>
       let v := DbFault.violations k f b o
+      if v.isEmpty then "ok" else ",".intercalate v
+    | _, _, _, _ => "bad-op"
+  | ["dbbusy", k, p, h, t, b] =>
+    match parseKind k, parseContention p h, t.toNat?, parseEv b with
+    | some k, some c, some t, some b => showOut (DbFault.runC t k c b)
+    | _, _, _, _ => "bad-op"
+  | "dbbusyspec" :: k :: p :: h :: b :: "|" :: obs =>
+    match parseKind k, parseContention p h, parseEv b, parseOut obs with
+    | some k, some c, some b, some o =>
+      let v := DbFault.violationsC k c b o
       if v.isEmpty then "ok" else ",".intercalate v
     | _, _, _, _ => "bad-op"
   | "run" :: q :: w :: k :: bits :: script =>
